@@ -94,6 +94,8 @@ impl Accept {
                 // Start listening for incoming connections
                 poll.registry()
                     .register(&mut lst, MioToken(token), Interest::READABLE)?;
+                #[cfg(actix_net_verif)]
+                crate::verif::emit(crate::verif::Ev::RegisterAttempt { token });
 
                 Ok(ServerSocketInfo {
                     token,
@@ -127,6 +129,9 @@ impl Accept {
         let mut events = mio::Events::with_capacity(256);
 
         loop {
+            #[cfg(actix_net_verif)]
+            crate::verif::emit(crate::verif::Ev::LoopIdle(self.verif_snapshot(sockets)));
+
             if let Err(err) = self.poll.poll(&mut events, self.timeout) {
                 match err.kind() {
                     io::ErrorKind::Interrupted => {}
@@ -140,6 +145,8 @@ impl Accept {
                     WAKER_TOKEN => {
                         let exit = self.handle_waker(sockets);
                         if exit {
+                            #[cfg(actix_net_verif)]
+                            crate::verif::emit(crate::verif::Ev::AcceptExit);
                             info!("accept thread stopped");
                             return;
                         }
@@ -157,6 +164,9 @@ impl Accept {
     }
 
     fn handle_waker(&mut self, sockets: &mut [ServerSocketInfo]) -> bool {
+        #[cfg(actix_net_verif)]
+        crate::verif::failpoint("accept:handle-waker");
+
         // This is a loop because interests for command from previous version was
         // a loop that would try to drain the command channel. It's yet unknown
         // if it's necessary/good practice to actively drain the waker queue.
@@ -170,6 +180,11 @@ impl Accept {
                 // Worker notified it became available.
                 Some(WakerInterest::WorkerAvailable(idx)) => {
                     drop(guard);
+                    #[cfg(actix_net_verif)]
+                    crate::verif::emit(crate::verif::Ev::Interest {
+                        kind: "worker_available",
+                        idx,
+                    });
 
                     self.avail.set_available(idx, true);
 
@@ -181,6 +196,11 @@ impl Accept {
                 // A new worker thread has been created so store its handle.
                 Some(WakerInterest::Worker(handle)) => {
                     drop(guard);
+                    #[cfg(actix_net_verif)]
+                    crate::verif::emit(crate::verif::Ev::Interest {
+                        kind: "worker",
+                        idx: handle.idx(),
+                    });
 
                     self.avail.set_available(handle.idx(), true);
                     self.handles.push(handle);
@@ -192,6 +212,11 @@ impl Accept {
 
                 Some(WakerInterest::Pause) => {
                     drop(guard);
+                    #[cfg(actix_net_verif)]
+                    crate::verif::emit(crate::verif::Ev::Interest {
+                        kind: "pause",
+                        idx: 0,
+                    });
 
                     if !self.paused {
                         self.paused = true;
@@ -202,6 +227,11 @@ impl Accept {
 
                 Some(WakerInterest::Resume) => {
                     drop(guard);
+                    #[cfg(actix_net_verif)]
+                    crate::verif::emit(crate::verif::Ev::Interest {
+                        kind: "resume",
+                        idx: 0,
+                    });
 
                     if self.paused {
                         self.paused = false;
@@ -215,6 +245,11 @@ impl Accept {
                 }
 
                 Some(WakerInterest::Stop) => {
+                    #[cfg(actix_net_verif)]
+                    crate::verif::emit(crate::verif::Ev::Interest {
+                        kind: "stop",
+                        idx: 0,
+                    });
                     if !self.paused {
                         self.deregister_all(sockets);
                     }
@@ -298,6 +333,8 @@ impl Accept {
     }
 
     fn register_logged(&self, info: &mut ServerSocketInfo) {
+        #[cfg(actix_net_verif)]
+        crate::verif::emit(crate::verif::Ev::RegisterAttempt { token: info.token });
         match self.register(info) {
             Ok(_) => debug!("resume accepting connections on {}", info.lst.local_addr()),
             Err(err) => error!("can not register server socket {}", err),
@@ -305,6 +342,8 @@ impl Accept {
     }
 
     fn deregister_logged(&self, info: &mut ServerSocketInfo) {
+        #[cfg(actix_net_verif)]
+        crate::verif::emit(crate::verif::Ev::DeregisterAttempt { token: info.token });
         match self.poll.registry().deregister(&mut info.lst) {
             Ok(_) => debug!("paused accepting connections on {}", info.lst.local_addr()),
             Err(err) => {
@@ -335,9 +374,17 @@ impl Accept {
     // Send connection to worker and handle error.
     fn send_connection(&mut self, conn: Conn) -> Result<(), Conn> {
         let next = self.next();
+        #[cfg(actix_net_verif)]
+        crate::verif::emit(crate::verif::Ev::Dispatch {
+            token: conn.token,
+            fd: crate::verif::fd_of(&conn.io),
+            worker: next.idx(),
+        });
         match next.send(conn) {
             Ok(_) => {
                 // Increment counter of WorkerHandle.
+                #[cfg(actix_net_verif)]
+                crate::verif::failpoint("accept:send-inc");
                 // Set worker to unavailable with it hit max (Return false).
                 if !next.inc_counter() {
                     let idx = next.idx();
@@ -348,11 +395,21 @@ impl Accept {
             }
             Err(conn) => {
                 // Worker thread is error and could be gone.
+                #[cfg(actix_net_verif)]
+                crate::verif::emit(crate::verif::Ev::DispatchFailed {
+                    worker: next.idx(),
+                    fd: crate::verif::fd_of(&conn.io),
+                });
                 // Remove worker handle and notify `ServerBuilder`.
                 self.remove_next();
 
                 if self.handles.is_empty() {
                     error!("no workers");
+                    #[cfg(actix_net_verif)]
+                    crate::verif::emit(crate::verif::Ev::DroppedNoWorkers {
+                        token: conn.token,
+                        fd: crate::verif::fd_of(&conn.io),
+                    });
                     // All workers are gone and Conn is nowhere to be sent.
                     // Treat this situation as Ok and drop Conn.
                     return Ok(());
@@ -366,7 +423,16 @@ impl Accept {
     }
 
     fn accept_one(&mut self, mut conn: Conn) {
+        #[cfg(actix_net_verif)]
+        let mut verif_iterations = 0u64;
         loop {
+            #[cfg(actix_net_verif)]
+            {
+                verif_iterations += 1;
+                if crate::verif::accept_one_iteration(verif_iterations, self.handles.len()) {
+                    return;
+                }
+            }
             let next = self.next();
             let idx = next.idx();
 
@@ -395,6 +461,14 @@ impl Accept {
 
             match info.lst.accept() {
                 Ok(io) => {
+                    #[cfg(actix_net_verif)]
+                    {
+                        crate::verif::emit(crate::verif::Ev::Accepted {
+                            token,
+                            fd: crate::verif::fd_of(&io),
+                        });
+                        crate::verif::failpoint("accept:accept-dispatch");
+                    }
                     let conn = Conn { io, token };
                     self.accept_one(conn);
                 }
@@ -446,6 +520,28 @@ impl Accept {
         // should be made.
         self.srv.worker_faulted(idx);
         self.avail.set_available(idx, false);
+    }
+}
+
+#[cfg(actix_net_verif)]
+impl Accept {
+    fn verif_snapshot(&self, sockets: &[ServerSocketInfo]) -> crate::verif::Snapshot {
+        crate::verif::Snapshot {
+            paused: self.paused,
+            handles: self.handles.iter().map(|h| h.idx()).collect(),
+            next: self.next,
+            avail: (0..16).map(|i| self.avail.get_available(i)).collect(),
+            counters: self
+                .handles
+                .iter()
+                .map(|h| (h.idx(), h.verif_total()))
+                .collect(),
+            listeners: sockets
+                .iter()
+                .map(|info| (info.token, info.timeout.is_some()))
+                .collect(),
+            poll_timeout_ms: self.timeout.map(|d| d.as_millis() as u64),
+        }
     }
 }
 
